@@ -106,6 +106,11 @@ func genC16(rt *rapid.T) core.Scenario {
 			u.Returns = u.To
 			if rapid.IntRange(0, 2).Draw(rt, "lies") > 0 {
 				u.Returns = rapid.SampledFrom([]int{u.From, 0, 1, 2, 3, 9}).Draw(rt, "returns")
+				if len(sc.Ups) > 0 && rapid.Bool().Draw(rt, "returnsAnotherSource") {
+					// lands on the source of an upcaster registered earlier: two liars can close a loop that the
+					// declared graph does not contain
+					u.Returns = sc.Ups[rapid.IntRange(0, len(sc.Ups)-1).Draw(rt, "whichSource")].From
+				}
 			}
 			u.Fails = rapid.IntRange(0, 3).Draw(rt, "fails") == 3
 			sc.Ups = append(sc.Ups, u)
